@@ -58,10 +58,10 @@ INTERESTING = RC.interesting_status_words()
 OC_NAMED, OC_ANY, OC_LINK, OC_WRONGOP, OC_BENIGN = range(5)
 
 
-def build_request(variant, pseed):
-    """Deterministic request content per (variant, policy seed); returns
+def build_request(variant, pseed, cseed=0):
+    """Deterministic request content per (variant, content seed); returns
     (request, device expectation, v1, device cfg)."""
-    ch = Choices(seed=1000003 * (VARIANTS.index(variant) + 1) + 7)
+    ch = Choices(seed=1000003 * (VARIANTS.index(variant) + 1) + 7 + 7919 * cseed)
     cfg = {"max_inputs": 2, "max_outputs": 2, "max_nodes": 3, "big": False}
     dcfg = {"max_chunk": 60, "no_early": True}
     v1 = variant.startswith("v1.")
@@ -123,9 +123,9 @@ def classify(apdu):
             0x06: "onboard"}.get(cmd, "cmd.%02x" % cmd)
 
 
-def run_request(variant, pseed, fault=None):
+def run_request(variant, pseed, fault=None, cseed=0, keep=False):
     """fault: None or (exchange index relative to the request, kind)."""
-    req, exp, v1, dcfg = build_request(variant, pseed)
+    req, exp, v1, dcfg = build_request(variant, pseed, cseed)
     pch = Choices(seed=pseed)
     target = {}
 
